@@ -3,6 +3,8 @@ package verifsim
 import (
 	"bytes"
 	"context"
+	"crypto/aes"
+	"crypto/cipher"
 	"crypto/ecdsa"
 	"crypto/elliptic"
 	crand "crypto/rand"
@@ -57,6 +59,7 @@ type Monitor struct {
 	Checked  int
 	Direct   map[string]int // allow-listed direct writes seen
 	pending  []monRec       // records written while no barrier could open them (init, sealed)
+	lastErr  string
 }
 
 type monRec struct {
@@ -105,6 +108,7 @@ func (m *Monitor) OnWrite(key string, val []byte, del bool) {
 	// the keyring), so the record is only queued here; Settle, called by the
 	// workload between operations, checks that it opens under its key.
 	m.pending = append(m.pending, monRec{key, append([]byte{}, val...)})
+
 }
 
 // opens reports whether the value is a barrier record that authenticates under `key`.
@@ -123,6 +127,8 @@ func (m *Monitor) opens(key string, val []byte) bool {
 		}
 		if _, err := b.Decrypt(context.Background(), key, val); err == nil {
 			return true
+		} else {
+			m.lastErr = fmt.Sprintf("%v (sealed=%v)", err, b.Sealed())
 		}
 	}
 	return false
@@ -142,13 +148,45 @@ func (m *Monitor) Settle() {
 	for _, r := range still {
 		if len(r.val) >= 5 && (r.val[4] == 1 || r.val[4] == 2) && isKeyringish(r.key) {
 			// keyring records are sealed under the root key, old root-key
-			// records under a rotated-out term: only format-checked
+			// records under a rotated-out term: format-checked, and they must
+			// not open under a key everybody knows (an all-zero key is what a
+			// wiped-too-early key buffer encrypts with)
+			if opensUnderZeroKey(r.key, r.val) {
+				m.sim.Violate("C01", "record-sealed-under-known-key", map[string]any{"key": nsPrefixRe.ReplaceAllString(r.key, "")},
+					"the record written to %q authenticates under the all-zero AES key: whoever reads the physical store can open it", r.key)
+				return
+			}
 			continue
 		}
 		m.sim.Violate("C01", "non-ciphertext-write", map[string]any{"key": nsPrefixRe.ReplaceAllString(r.key, "")},
-			"a record that is not authenticated ciphertext under its storage key (and not an allow-listed bootstrap record) was written to %q: % x...", r.key, trunc(r.val, 24))
+			"a record that is not authenticated ciphertext under its storage key (and not an allow-listed bootstrap record) was written to %q (%d bytes): %x... (last open error: %s)", r.key, len(r.val), r.val[:min(len(r.val), 24)], m.lastErr)
 		return
 	}
+}
+
+// opensUnderZeroKey tries AES-GCM with a 32-byte (and 16-byte) zero key, with
+// and without the storage key as associated data.
+func opensUnderZeroKey(key string, val []byte) bool {
+	if len(val) < 5+12+16 {
+		return false
+	}
+	for _, klen := range []int{32, 16} {
+		blk, err := aes.NewCipher(make([]byte, klen))
+		if err != nil {
+			continue
+		}
+		gcm, err := cipher.NewGCM(blk)
+		if err != nil {
+			continue
+		}
+		nonce, body := val[5:5+gcm.NonceSize()], val[5+gcm.NonceSize():]
+		for _, aad := range [][]byte{nil, []byte(key), []byte(nsPrefixRe.ReplaceAllString(key, ""))} {
+			if _, err := gcm.Open(nil, nonce, body, aad); err == nil {
+				return true
+			}
+		}
+	}
+	return false
 }
 
 func isKeyringish(key string) bool {
@@ -216,6 +254,7 @@ func c01MonitorBody(rc *RunCtx) {
 	var steps []string
 	do := func(desc string, r Req) *logical.Response {
 		steps = append(steps, desc)
+		s.Note("%s", desc)
 		resp, err := h.Do("c01", r)
 		if err != nil || (resp != nil && resp.IsError()) {
 			s.Probe("op_refused:" + desc)
@@ -345,7 +384,10 @@ func c01MonitorBody(rc *RunCtx) {
 		steps = append(steps, "seal+unseal")
 		if err := h.Core.Seal(h.Root); err == nil {
 			if err := h.Unseal(); err != nil {
-				panic(err)
+				// availability after seal / unseal is C10's clause; here the run just ends
+				s.Probe("unseal_failed_after_workload")
+				s.Trunc = true
+				return
 			}
 		}
 		mon.Settle()
